@@ -308,6 +308,10 @@ fn check(prop: &str, tier_arg: &str) -> i32 {
             "event_log_digest_xor": format!("{:016x}", total.digest_xor),
             "notes_other_properties": total.notes,
             "known_findings_hit": known,
+            "components": {
+                "real_code": ["taskchampion-sync-server-core::Server (all protocol logic)", "InMemoryStorage", "SqliteStorage + rusqlite + bundled SQLite 3.46 (pager, WAL, busy handler) over the real unix VFS on tmpfs", "server::api handlers (add_version, get_child_version, add_snapshot, get_snapshot), ServerState::client_id_header, WebServer::config routing, actix extractors and DefaultHeaders middleware"],
+                "simulated_or_stubbed": ["thread scheduling (real threads, one runnable at a time, seeded choice)", "wall clock + per-instance skew (verif hook), SQLite's clock and randomness (shim VFS)", "version-id source (verif hook)", "sockets + HTTP/1.1 codec (requests enter at the actix service layer as chunk streams)", "disk durability, I/O errors, process death, power loss (shim VFS: shadow model, fault plan, image capture)", "several server processes (several instances in one process)", "the binary's main() (never run)"],
+            },
         },
         "assumptions": meta.assumptions,
         "wall_s": wall,
